@@ -18,7 +18,7 @@ Tie (model <-> code):
     SELECT on the same connection.
 Witnesses of the three places where the code as it is violates the property are replayed on every run.
 """
-import ast, datetime, decimal, gc, itertools, uuid, json, random, re, sys, traceback
+import ast, datetime, decimal, gc, itertools, types, uuid, json, random, re, sys, traceback
 from pony.orm import (Database, Required, Optional, Set, PrimaryKey, db_session, select, count, sum as psum, min as pmin, max as pmax,
                       avg, desc, raw_sql, commit, rollback, flush, delete, exists, get as pget)
 from pony.orm import core, asttranslation, decompiling, ormtypes
@@ -76,6 +76,12 @@ CANON = {
 }
 
 
+def _k(key):
+    """what the log keeps of a key: never a reference to a code object (the recording must not keep alive what the real dict would let die)"""
+    if isinstance(key, types.CodeType): return ('code', key.co_name, hash(key))
+    return key
+
+
 class RecDict(dict):
     """a dict that logs get / set / pop / clear, can be forced to miss, and remembers every (key -> canonical value) ever stored"""
     def __init__(self, name, registry):
@@ -91,41 +97,42 @@ class RecDict(dict):
         return n
     def get(self, key, default=None):
         if MODE['cold']:
-            self.log.append(('get', key, False)); return default
+            self.log.append(('get', _k(key), False)); return default
         v = dict.get(self, key, MISSING)
-        self.log.append(('get', key, v is not MISSING))
+        self.log.append(('get', _k(key), v is not MISSING))
         return default if v is MISSING else v
     def __getitem__(self, key):
         if MODE['cold']:
-            self.log.append(('get', key, False)); raise KeyError(key)
+            self.log.append(('get', _k(key), False)); raise KeyError(key)
         try: v = dict.__getitem__(self, key)
         except KeyError:
-            self.log.append(('get', key, False)); raise
-        self.log.append(('get', key, True))
+            self.log.append(('get', _k(key), False)); raise
+        self.log.append(('get', _k(key), True))
         return v
     def __contains__(self, key):
         return False if MODE['cold'] else dict.__contains__(self, key)
     def __setitem__(self, key, value):
-        self.log.append(('set', key))
+        self.log.append(('set', _k(key)))
         fn = CANON.get(self._kind(), canon_sql)
         try: c = fn(value)
         except Exception as e: c = 'canon failed: %s' % type(e).__name__
         try:
-            if key in self.stored.keys():
-                if self.stored[key] != c and len(self.collisions) < 5: self.collisions.append((key, self.stored[key], c))
-            else: self.stored[key] = c
+            sk = _k(key)
+            if sk in self.stored.keys():
+                if self.stored[sk] != c and len(self.collisions) < 5: self.collisions.append((sk, self.stored[sk], c))
+            else: self.stored[sk] = c
         except TypeError: pass
         dict.__setitem__(self, key, value)
     def setdefault(self, key, default=None):
         # a lookup and, on a miss, a store; with the caches forced to miss the caller's fresh value always wins
         if MODE['cold'] or not dict.__contains__(self, key):
-            self.log.append(('get', key, False))
+            self.log.append(('get', _k(key), False))
             self[key] = default
             return default
-        self.log.append(('get', key, True))
+        self.log.append(('get', _k(key), True))
         return dict.__getitem__(self, key)
     def pop(self, key, *default):
-        self.log.append(('pop', key, dict.__contains__(self, key)))
+        self.log.append(('pop', _k(key), dict.__contains__(self, key)))
         return dict.pop(self, key, *default)
     def clear(self):
         self.log.append(('clear',))
@@ -318,6 +325,49 @@ def q_eval_gen(P, c):
     try: return srt(select(gen)[:])
     finally:
         del gen; gc.collect()
+def q_eval_rounds(P, kind, order, rounds):
+    # the same query sources compiled again and again at run time, used once and dropped, interleaved, with gc: EQUAL but distinct code objects.
+    # every execution must give the answer of its own source
+    out = []
+    def conds():
+        # (a) the fixed condition texts in the given order; (b) per round FRESH sources of equal length: A, A again, B — the freed code object
+        #     of 'A again' and the new one of B have the same size, which is when an allocator re-uses the address
+        for r in range(rounds):
+            for c in order: yield CONDS[c]
+        for r in range(rounds):
+            b = 1 + (r + (order[0] if order else 0)) % 5
+            for cond in ('p.a > %d' % b, 'p.a > %d' % b, 'p.a < %d' % b, 'p.a < %d' % b, 'p.b > %d' % b): yield cond
+    for cond_text in conds():
+        for c in (0,):
+            CONDS_TEXT = cond_text
+            if kind == 'gen':
+                g = eval('(p.id for p in P if %s)' % CONDS_TEXT, {'P': P})
+                try: out.append(srt(select(g)[:]))
+                except Exception as e: out.append('exc:' + type(e).__name__)
+                del g
+            elif kind == 'lambda':
+                f = eval('lambda p: ' + CONDS_TEXT, {})
+                try: out.append(ids(P.select(f)))
+                except Exception as e: out.append('exc:' + type(e).__name__)
+                del f
+            elif kind == 'filter':
+                f = eval('lambda p: ' + CONDS_TEXT, {})
+                try: out.append(ids(select(p for p in P).filter(f)))
+                except Exception as e: out.append('exc:' + type(e).__name__)
+                del f
+            elif kind == 'expr':
+                env = {'select': select, 'P': P}
+                try: out.append(srt(eval(compile('select(p.id for p in P if %s)[:]' % CONDS_TEXT, '<console>', 'eval'), env)))
+                except Exception as e: out.append('exc:' + type(e).__name__)
+                del env
+            else:
+                ns = {'P': P, 'select': select}
+                exec('def mk():\n    return select(p.id for p in P if %s)' % CONDS_TEXT, ns)
+                try: out.append(srt(ns['mk']()[:]))
+                except Exception as e: out.append('exc:' + type(e).__name__)
+                del ns
+            gc.collect()
+    return out
 def q_eval_filter(P, c):
     func = eval('lambda p: ' + CONDS[c], {})
     try: return ids(select(p for p in P).filter(func))
@@ -495,7 +545,7 @@ class Env(object):
 QUERIES = {f.__name__: f for f in [q_cmp, q_cmpb, q_ne, q_date, q_str, q_in, q_slice, q_slice1, q_slice2, q_getattr, q_obj, q_fcall, q_lambda, q_lambda_s,
                                   q_strq, q_strq2, q_strlambda, q_filter, q_filter_s, q_where_a, q_where_b, q_order_s, q_order_d, q_order_l,
                                   q_count, q_sum, q_min, q_max, q_avg, q_countd, q_exists, q_first, q_get, q_page, q_limit, q_distinct, q_nodistinct,
-                                  q_aggr, q_aggr_top, q_aggr_sel,
+                                  q_aggr, q_aggr_top, q_aggr_sel, q_eval_rounds,
                                   q_order_attr, q_order_num,
                                   q_lam_select, q_lam_filter, q_lam_where, q_lam_exists, q_lamtext_select, q_lamtext_filter,
                                   q_text_order_by, q_text_sort_by, q_text_filter, q_text_where, q_zf_order_by, q_zf_filter, q_zf_where,
@@ -669,6 +719,9 @@ def gen_value(rng, kinds):
     if k == 'tuple': return ['@tuple'] + [rng.choice(INTS) for _ in range(rng.choice([0, 1, 2, 3]))]
     if k == 'list': return ['@list'] + [rng.choice(INTS) for _ in range(rng.choice([0, 1, 2, 3]))]
     if k == 'strtuple': return ['@tuple'] + [rng.choice(['a', 'b']) for _ in range(rng.choice([1, 2]))]
+    if k == 'evkind': return rng.choice(['gen', 'expr', 'lambda', 'filter', 'exec'])
+    if k == 'evorder': return ['@list'] + [rng.randrange(8) for _ in range(rng.choice([2, 3, 4, 5]))]
+    if k == 'evrounds': return rng.choice([3, 5, 8])
     if k == 'aggf': return rng.choice(['sum', 'min', 'max', 'avg', 'count', 'group_concat'])
     if k == 'aggf5': return rng.choice(['sum', 'min', 'max', 'avg', 'count'])
     if k == 'aggf2': return rng.choice(['max', 'sum'])
@@ -707,6 +760,7 @@ QSPEC = [   # (step, argument kinds per position, weight)
     ('e_select_ab', [['int'], ['int', 'none']], 2),
     ('q_count_d', [['int'], ['tri']], 3), ('q_sum_d', [['int'], ['tri']], 1), ('q_avg_d', [['int'], ['tri']], 1), ('q_gc', [['int'], ['sep'], ['tri']], 1),
     ('q_count_ent_d', [['int'], ['tri']], 1), ('q_nested_slice', [['bound', 'none'], ['bound', 'none']], 2),
+    ('q_eval_rounds', [['evkind'], ['evorder'], ['evrounds']], 3),
     ('q_aggr', [['aggf'], ['aggattr'], ['aggx']], 6), ('q_aggr_top', [['aggf5'], ['aggattr7'], ['aggx']], 3), ('q_aggr_sel', [['aggf2'], ['aggattr'], ['aggx']], 2),
     ('q_order_attr', [['five']], 2), ('q_order_num', [['txt']], 1),
     ('q_lam_select', [['zf']], 2), ('q_lam_filter', [['zf']], 2), ('q_lam_where', [['zf']], 1), ('q_lam_exists', [['zf']], 1),
@@ -893,7 +947,8 @@ def random_histories(ctx):
     flush_protocol(ctx)
 
 
-POOL = {'aggf': ['sum', 'min', 'max', 'avg', 'count', 'group_concat'], 'aggf5': ['sum', 'min', 'max', 'avg', 'count'], 'aggf2': ['max', 'sum'],
+POOL = {'evkind': ['gen', 'expr', 'lambda', 'filter', 'exec'], 'evorder': [['@list', 0, 1, 2], ['@list', 3, 1, 4, 0, 2]], 'evrounds': [6],
+        'aggf': ['sum', 'min', 'max', 'avg', 'count', 'group_concat'], 'aggf5': ['sum', 'min', 'max', 'avg', 'count'], 'aggf2': ['max', 'sum'],
         'aggattr': ['d', 'dec', 'dt', 'tm', 'td', 'uu', 'fl', 'a', 's', 'b'], 'aggattr7': ['d', 'dec', 'dt', 'tm', 'td', 'fl', 'a'], 'aggx': [-1, 1, 9],
         'five': [0, 1, 2, 3, 4], 'two': [0, 1], 'txt': [0, 1, 2, 3], 'zf': [0, 1, 2], 'lim': [1, 2, 3], 'tri': [None, False, True], 'sep': [None, ',', '|'], 'cond': [0, 1, 2, 3, 4, 5], 'bound': [1, 2, 3, -1, -2], 'int': [1, 3, -1], 'none': [None], 'str': ['ab', 'b%'], 'date': [['@date', 2020, 1, 1], ['@date', 2021, 1, 1]], 'bool': [True], 'float': [1.5],
         'tuple': [['@tuple'], ['@tuple', 1], ['@tuple', 1, 3]], 'list': [['@list', 1], ['@list', 0, 3]], 'strtuple': [['@tuple', 'a']],
